@@ -111,80 +111,40 @@ def op_gen(case: dict) -> dict:
             "cap": cap0, "cap_after": int(grammar.get_max_repetition())}
 
 
-def greedy_table(patterns: list, binary: bool, word_units: list[int], leaves: list, tags: list) -> list:
-    """[[regexId, rest, m]] for every regex-tagged leaf: what one `re.match` returns on the rest of the word,
-    asked the way Terminal.check asks (bytes pattern on bytes input, otherwise text through Latin-1)"""
-    out, off8 = [], 0
-    for leaf, tag in zip(leaves, tags):
-        if leaf[0] == "i":
-            n8 = 1
-        elif leaf[0] == "t" and binary:
-            try:
-                n8 = 8 * len("".join(chr(c) for c in leaf[1]).encode("utf-8"))
-            except UnicodeEncodeError:
-                n8 = 8 * len(leaf[1])
-        else:
-            n8 = 8 * len(leaf[1])
-        if tag is not None and off8 % 8 == 0:
-            rest = word_units[off8 // 8:]
-            kind, pat = patterns[tag]
+def rlen_table(patterns: list, binary: bool, word_units: list[int]) -> list:
+    """[[regexId, w, m]] for every regex terminal and every unit index w (0 .. len): the length of what ONE
+    `re.match` returns on `word[w:]`, asked the way Terminal.check asks (a bytes pattern on bytes input,
+    otherwise the text pattern on the input read through Latin-1); no row = no match"""
+    out = []
+    as_text = "".join(chr(u) for u in word_units)
+    as_bytes = bytes(word_units) if binary else None
+    for rid, (kind, pat) in enumerate(patterns):
+        for w in range(len(word_units) + 1):
             try:
                 if kind == "bytes" and binary:
-                    m = re.match(pat.encode("latin-1"), bytes(rest))
+                    m = re.match(pat.encode("latin-1"), as_bytes[w:])
                 else:
-                    m = re.match(pat, "".join(chr(u) for u in rest))
+                    m = re.match(pat, as_text[w:])
             except (re.error, ValueError):
                 m = None
             if m is not None:
-                out.append([tag, rest, len(m.group(0))])
-        off8 += n8
+                out.append([rid, w, len(m.group(0))])
     return out
 
 
-import contextlib
-
-
-@contextlib.contextmanager
-def nullable_completion_repair():
-    """The proposed repair of finding C05/nullable-completion-missed (/var/tmp/fixes/C05-nullable-completion-missed),
-    monkeypatched in-process: when `predict` meets a symbol that was already completed in this column with an empty
-    derivation, the finished state is completed again so that the state that arrived later is advanced.
-    Used ONLY to classify a rejected word: rejected without, accepted with = rejected because of exactly that."""
-    from fandango.language.grammar.parser.iterative_parser import IterativeParser
-    orig = IterativeParser.predict
-
-    def predict(self, state, table, k, hookin_parent=None):
-        symbol = state.dot
-        orig(self, state, table, k, hookin_parent)
-        if symbol in self._context_rules:
-            return
-        for done in [s for s in table[k].states if s.position == k and s.nonterminal == symbol and s.finished()]:
-            self.complete(done, table, k)
-
-    IterativeParser.predict = predict
-    try:
-        yield
-    finally:
-        IterativeParser.predict = orig
-
-
-def accepted_with_repair(spec: str, word, binary: bool, max_trees: int) -> bool:
-    """parse `word` with a FRESH grammar (the parse cache of the first attempt holds the empty forest) under
-    `nullable_completion_repair`"""
-    from fandango import Fandango
-    from fandango.language.parse.parse import parse
-    grammar, constraints = parse(spec, None, use_cache=False, use_stdlib=False)
-    fan = Fandango._with_parsed(grammar, constraints, start_symbol="<start>")
-    n = 0
-    with nullable_completion_repair():
-        for parsed in fan.parse(word):
-            n += 1
-            s1 = serialise(parsed, binary)
-            if s1 == word and type(s1) is type(word):
-                return True
-            if n >= max_trees:
-                break
-    return False
+def tree_stats(tree) -> tuple[int, int]:
+    """(nesting depth counted in non-terminal nodes, largest number of children of a node) of a real tree"""
+    from fandango.language.symbols import NonTerminal
+    depth, width = 0, 0
+    stack = [(tree, 1)]
+    while stack:
+        t, d = stack.pop()
+        if isinstance(t.symbol, NonTerminal):
+            depth = max(depth, d)
+            width = max(width, len(t.children))
+            for k in t.children:
+                stack.append((k, d + 1))
+    return depth, width
 
 
 def op_roundtrip(case: dict) -> dict:
@@ -225,10 +185,8 @@ def roundtrip_one(case, it, grammar, fan, binary, max_trees, validate, FandangoE
             return {"unserialisable": type(e).__name__}
         rec["word"] = units(word)
         rec["binary"] = binary
-        if it.get("tags") is not None:
-            leaves = [[tag, list(p) if tag != "i" else p] for tag, p in gio.tree_leaves(it["tree"])]
-            rec["leaves"] = leaves
-            rec["greedy_table"] = greedy_table(case["patterns"], binary, rec["word"], leaves, it["tags"])
+        rec["leaves"] = [[tag, list(p) if tag != "i" else p] for tag, p in gio.tree_leaves(it["tree"])]
+        rec["rlen"] = rlen_table(case["patterns"], binary, rec["word"])
         # parse it back: grammar + constraints, as `fandango parse` / `--validate` do
         found, n, first_ok, first_err = False, 0, None, None
         try:
@@ -253,6 +211,7 @@ def roundtrip_one(case, it, grammar, fan, binary, max_trees, validate, FandangoE
                         other["parsed"], other["word"] = parsed, word
                 if serialise(parsed, binary) == word and type(serialise(parsed, binary)) is type(word):
                     found = True
+                    rec["parsed_depth"], rec["parsed_width"] = tree_stats(parsed)
                     break
                 if n >= max_trees:
                     break
@@ -261,19 +220,6 @@ def roundtrip_one(case, it, grammar, fan, binary, max_trees, validate, FandangoE
                 raise
             rec["raised"] = f"{type(e).__name__}: {e}"[:160]
         rec.update({"found": found, "n_trees": n, "validate_first": first_ok, "validate_err": first_err})
-        if not found and "raised" not in rec:
-            # classification only; under a time limit of its own, so that a diverging repair attempt cannot turn
-            # the rejection that was just observed into a mere "timeout"
-            import signal
-            signal.alarm(int(case.get("item_s", 8)))
-            try:
-                rec["found_with_nullable_repair"] = accepted_with_repair(case["spec"], word, binary, max_trees)
-            except Exception as e:  # noqa
-                rec["found_with_nullable_repair"] = False
-                if type(e).__name__ == "_Alarm":
-                    rec["repair_timeout"] = True
-            finally:
-                signal.alarm(0)
         return rec
 
 
